@@ -111,6 +111,47 @@ fn run_family(bytes: &[u8], ctx: &Ctx) -> CaseInfo {
     eval(&p, ctx)
 }
 
+/// Answers whose terms and constraints are built by library relations (which use anonymous `_`
+/// variables and fresh variables of their own internally): family S programs with disequalities.
+fn run_relations(bytes: &[u8], ctx: &Ctx) -> CaseInfo {
+    use crate::gen::search::{gen_program as gen_search, SearchCfg};
+    let mut s = Source::new(bytes);
+    let mut c = SearchCfg::dfs();
+    c.nq_max = 3;
+    let p = gen_search(&mut s, &c);
+    let mut info = eval(&p, ctx);
+    info.class("relations");
+    info
+}
+
+/// Answers containing lists of hundreds of cells that were built cell by cell by a relation
+/// (every tail a bound variable), next to disequalities on their elements.
+fn run_scale(bytes: &[u8], ctx: &Ctx) -> CaseInfo {
+    let mut s = Source::new(bytes);
+    let thorough = ctx.tier == Tier::Thorough;
+    let mut p = crate::gen::scale::search_program_opts(&mut s, thorough, 0, false);
+    // a disequality or two on the query variables, before or after
+    let nd = s.below(3);
+    for _ in 0..nd {
+        let v = Term::Var(s.below(2) as u32);
+        let t = match s.below(3) {
+            0 => Term::Int(s.range(0, 3)),
+            1 => Term::list(vec![Term::Int(s.range(0, 2))]),
+            _ => Term::Var(s.below(2) as u32),
+        };
+        let g = Goal::Diseq(v, t);
+        if s.flag(128) {
+            p.body.insert(0, g);
+        } else {
+            p.body.push(g);
+        }
+    }
+    let mut info = eval(&p, ctx);
+    truncate_sample(&mut info, 400);
+    info.class("scale");
+    info
+}
+
 fn fixed_nested(ctx: &Ctx) -> CaseInfo {
     // p == Pair(1, x), x != 3  (property text): p must be reported as constrained
     let p = Program {
@@ -145,9 +186,13 @@ fn fixed_shared(ctx: &Ctx) -> CaseInfo {
 pub fn def() -> PropertyDef {
     PropertyDef {
         id: "C03",
-        rule: "family T programs with 1-3 query variables sharing free variables, lists and compounds (Pair, Rec, tuple, Node). Per answer: only `_` variables occur; no reported constraint mentions a variable that occurs in no answer term; LResult::constraints()/is_constrained() per query variable equals (own traversal through lists and compounds, by identity of the reified variables) the set of reported constraints mentioning a reified variable of that term; the whole tuple with its constraints is equivalent to the reference interpreter's answer (distinctness and sharing of reified variables). Non-trivial = some answer has a reified variable and a constraint; distinct = hash of the printed program",
+        rule: "family T programs with 1-3 query variables sharing free variables, lists and compounds (Pair, Rec, tuple, Node). Per answer: only `_` variables occur; no reported constraint mentions a variable that occurs in no answer term; LResult::constraints()/is_constrained() per query variable equals (own traversal through lists and compounds, by identity of the reified variables) the set of reported constraints mentioning a reified variable of that term; the whole tuple with its constraints is equivalent to the reference interpreter's answer (distinctness and sharing of reified variables). Non-trivial = some answer has a reified variable and a constraint; distinct = hash of the printed program. Family `relations`: family S programs (library and harness relations, closures, disequalities; the relations use anonymous `_` and own fresh variables internally). Family `scale`: answers with lists of up to 150-400 cells built cell by cell by member / append / lenle / rember / nrev etc., plus disequalities on the query variables",
         assumptions: vec!["reference interpreter and unifier are correct"],
-        families: vec![Family { name: "tree-compound", max_len: 160, quick: 120_000, thorough: 3_000_000, run: run_family }],
+        families: vec![
+            Family { name: "tree-compound", max_len: 160, quick: 120_000, thorough: 3_000_000, run: run_family },
+            Family { name: "relations", max_len: 200, quick: 80_000, thorough: 2_000_000, run: run_relations },
+            Family { name: "scale", max_len: 64, quick: 6_000, thorough: 100_000, run: run_scale },
+        ],
         fixed: vec![
             Fixed { name: "constraint-on-variable-nested-in-compound", run: fixed_nested },
             Fixed { name: "constraint-on-hidden-variable", run: fixed_hidden },
